@@ -554,7 +554,7 @@ def replay(case):
 def explore(ctx):
     import itertools
 
-    models = list(iomodels.feature_product(1))
+    models = [d for d in iomodels.feature_product(1) if d["notes"] != "structured"]   # SBML notes are plain text
     cases = []
     for d in models:
         for t in TRANSPORTS:
@@ -564,7 +564,7 @@ def explore(ctx):
             cases.append((d, "path", "none"))
     pair_feats = ("bounds", "objective", "rule", "gene_id", "met_id", "rxn_id", "groups", "group_id", "annotation", "notes")
     for d in iomodels.feature_product(2, only=pair_feats):
-        if len(iomodels.describe(d)) == 2:
+        if len(iomodels.describe(d)) == 2 and d["notes"] != "structured":
             cases.append((d, "path", "default"))
     if ctx.thorough:
         for d in iomodels.feature_product(3, only=("bounds", "objective", "rule", "groups", "annotation", "names")):
